@@ -185,6 +185,9 @@ func c14(c *Ctx) {
 							if lc, ok := arg.(*ssa.Call); ok && isLenCall(lc) {
 								// len of the value stored to jumpBytes
 								jb := lc.Call.Args[0]
+								if _, fv, isF := fieldRef(resolveLocal(jb)); isF && fv != nil && fv == p.patchRoles().PInstall {
+									okLen = true // len of the recorded jump bytes
+								}
 								eachInstr(inst, func(j ssa.Instruction) {
 									if s2, ok := j.(*ssa.Store); ok {
 										if f2, ok := s2.Addr.(*ssa.FieldAddr); ok && fieldVar(f2.X.Type(), f2.Field) == p.patchRoles().PInstall && s2.Val == jb {
